@@ -70,7 +70,30 @@ def mon_sanity(tr):
                 out.append(("panic", "panic in op %d `%s`: %s" % (i, op[:60], l[:160])))
             elif l.startswith("hang") or l == "spin" or l.startswith("CRASH"):
                 out.append(("hang:" + op.split()[0], "op %d `%s` never returned / busy loop: %s" % (i, op[:60], l[:80])))
-    return out + mon_records(tr)
+    return out + mon_records(tr) + mon_signals(tr)
+
+
+def mon_signals(tr):
+    """C10/C12: what Online() and Offline() show whenever the script looks: never both released, one of them released whenever
+    every goroutine is at rest, and after a Close or Disconnect that returned: Offline released and Online blocked, for good"""
+    out = []
+    closed = False
+    for i, (op, lines) in enumerate(tr):
+        f = op.split()
+        if f and f[0] in ("init", "vinit", "adopt"):
+            closed = False
+        for l in lines:
+            if l == "close ok" or l == "ret close ok" or (l.startswith("disconnect ") and not l.startswith("disconnect blocked")) or l.startswith("ret disconnect "):
+                closed = True
+            if l.startswith("sig online="):
+                on, off = l.split()[1].endswith("1"), l.split()[2].endswith("1")
+                if on and off:
+                    out.append(("signals:both-released", "Online and Offline are both released (`%s` after `%s`)" % (l, tr[i - 1][0][:40] if i else "")))
+                elif not on and not off and not any(x.startswith(("unsupported", "stalled", "hang", "dead after")) for x in lines):
+                    out.append(("signals:none-released", "neither Online nor Offline is released while every goroutine is at rest (`%s`)" % l))
+                elif closed and on:
+                    out.append(("signals:online-after-close", "Online is released after Close/Disconnect returned"))
+    return out
 
 
 def mon_records(tr):
